@@ -63,11 +63,12 @@ func checkMain(args []string) {
 		stt.Exhaustive = false
 	}
 	w := newEvWriter(*out, 150000)
-	emit := func(state []jType) {
+	emit := func(state []jType, build string) {
 		// Check must not depend on (nor change) the order in which the types were added
 		state = append([]jType{}, state...)
 		rng.Shuffle(len(state), func(i, j int) { state[i], state[j] = state[j], state[i] })
-		c := sCase{Fam: "check", Kind: "check", Build: "lit", State: state}
+		c := sCase{Fam: "check", Kind: "check", Build: build, State: state}
+		stt.class("build:" + build)
 		ev := runSchemaCase(c, nil)
 		stt.Calls++
 		cls := "clean"
@@ -81,9 +82,9 @@ func checkMain(args []string) {
 		}
 		w.Emit(ev, c)
 	}
-	for _, s := range states {
+	for i, s := range states {
 		stt.States++
-		emit(s)
+		emit(s, []string{"lit", "api"}[i%2]) // as a literal, or through AddType / RemoveType
 	}
 
 	// Larger schemas: 3..5 types, a coherent base made of two-way pairs and
@@ -131,7 +132,8 @@ func checkMain(args []string) {
 			}
 			ts[t].Rels[k] = r
 		}
-		emit(ts)
+		emit(ts, "lit")
+		emit(ts, "api")
 	}
 	_ = jsonapi.Schema{}
 	stt.Rule = "distinct schemas for which Check reported at least one error"
